@@ -21,13 +21,53 @@ import (
 
 type shardMap[E algebra.PrimeGroupElement[E, S], S algebra.PrimeFieldElement[S]] = map[sharing.ID]*mpc.BaseShard[E, S]
 
-// checkShards is the C03 oracle on one complete key-generation output. tag prefixes the finding keys ("gennaro",
-// "dealer", ...), where names the configuration in messages. ids[i] is the identifier of policy party i.
-// It returns the byte encoding of the public key (nil if the output is too broken to name one).
-func checkShards[E algebra.PrimeGroupElement[E, S], S algebra.PrimeFieldElement[S]](x *engine.X, g grp[E, S], tag, where string, p *policy.Policy, ids []sharing.ID, ac accessstructures.Monotone, shards shardMap[E, S]) []byte {
-	fail := func(key, format string, a ...any) {
-		x.Failf(tag+"/"+key, "%s: %s", where, fmt.Sprintf(format, a...))
+// keyCNFDummy (same key as C02): a CNF policy in which some shareholder belongs to EVERY maximal unqualified set (its
+// presence never matters). cnf.InducedMSP gives that shareholder no row, the span programme's shareholder set then
+// lacks it, and key generation over such a structure breaks: the trusted dealer silently returns no shard for it,
+// Gennaro fails in Round1 ("missing pedersen share"), Canetti in Round3. Every failure in such a configuration is
+// filed under this one key.
+const keyCNFDummy = "cnf/dummy-party"
+
+func dummyParties(p *policy.Policy) uint64 {
+	if p.Kind != policy.CNF {
+		return 0
 	}
+	d := p.Full()
+	for _, u := range p.MUS {
+		d &= u
+	}
+	return d
+}
+
+// site names where a finding is raised: tag prefixes the finding keys ("gennaro-FiatShamir", "dealer", ...), where
+// names the configuration in messages.
+type site struct {
+	tag, where string
+	dummy      bool
+}
+
+func newSite(tag, where string, p *policy.Policy) site {
+	return site{tag: tag, where: where, dummy: dummyParties(p) != 0}
+}
+
+func (s site) sub(suffix string) site { s.where += suffix; return s }
+
+func (s site) key(k string) string {
+	if s.dummy {
+		return keyCNFDummy
+	}
+	return s.tag + "/" + k
+}
+
+func (s site) failf(x *engine.X, key, format string, a ...any) {
+	x.Failf(s.key(key), "%s: %s", s.where, fmt.Sprintf(format, a...))
+}
+
+// checkShards is the C03 oracle on one complete key-generation output. ids[i] is the identifier of policy party i.
+// It returns the byte encoding of the public key (nil if the output is too broken to name one).
+func checkShards[E algebra.PrimeGroupElement[E, S], S algebra.PrimeFieldElement[S]](x *engine.X, g grp[E, S], st site, p *policy.Policy, ids []sharing.ID, ac accessstructures.Monotone, shards shardMap[E, S]) []byte {
+	where := st.where
+	fail := func(key, format string, a ...any) { st.failf(x, key, format, a...) }
 	// 0. everybody has an output, filed under its own identifier
 	for _, id := range ids {
 		sh := shards[id]
@@ -236,7 +276,7 @@ func lenPub[E algebra.PrimeGroupElement[E, S], S algebra.PrimeFieldElement[S]](p
 }
 
 // reload stores and reloads every shard through CBOR; the reloaded shard must be Equal and report the same key.
-func reload[E algebra.PrimeGroupElement[E, S], S algebra.PrimeFieldElement[S]](x *engine.X, tag, where string, ids []sharing.ID, shards shardMap[E, S]) shardMap[E, S] {
+func reload[E algebra.PrimeGroupElement[E, S], S algebra.PrimeFieldElement[S]](x *engine.X, st site, ids []sharing.ID, shards shardMap[E, S]) shardMap[E, S] {
 	out := shardMap[E, S]{}
 	for _, id := range ids {
 		sh := shards[id]
@@ -246,25 +286,25 @@ func reload[E algebra.PrimeGroupElement[E, S], S algebra.PrimeFieldElement[S]](x
 		x.Case("")
 		b, err := sh.MarshalCBOR()
 		if err != nil {
-			x.Failf(tag+"/cbor/marshal", "%s: party %d: MarshalCBOR: %v", where, id, err)
+			st.failf(x, "cbor/marshal", "party %d: MarshalCBOR: %v", id, err)
 			return nil
 		}
 		var r mpc.BaseShard[E, S]
 		if err := r.UnmarshalCBOR(b); err != nil {
-			x.Failf(tag+"/cbor/unmarshal", "%s: party %d: UnmarshalCBOR of its own encoding: %v", where, id, err)
+			st.failf(x, "cbor/unmarshal", "party %d: UnmarshalCBOR of its own encoding: %v", id, err)
 			return nil
 		}
 		if !r.Equal(sh) || !sh.Equal(&r) {
-			x.Failf(tag+"/cbor/not-equal", "%s: party %d: reloaded shard is not Equal to the stored one", where, id)
+			st.failf(x, "cbor/not-equal", "party %d: reloaded shard is not Equal to the stored one", id)
 		}
 		if !r.PublicKeyValue().Equal(sh.PublicKeyValue()) {
-			x.Failf(tag+"/cbor/pk", "%s: party %d: reloaded shard reports a different public key", where, id)
+			st.failf(x, "cbor/pk", "party %d: reloaded shard reports a different public key", id)
 		}
 		for _, o := range ids {
 			a, okA := r.PublicKeyShares().Get(o)
 			c, okC := sh.PublicKeyShares().Get(o)
-			if !okA || !okC || !a.Equal(c) {
-				x.Failf(tag+"/cbor/public-shares", "%s: party %d: reloaded shard has a different public share for %d", where, id, o)
+			if okA != okC || okA && !a.Equal(c) {
+				st.failf(x, "cbor/public-shares", "party %d: reloaded shard has a different public share for %d", id, o)
 			}
 		}
 		out[id] = &r
